@@ -5,7 +5,7 @@ from vlib import core, modules
 MODS = ["AvoVerif.Props.C12"]
 
 
-def differential_fmt(ctx, sub, n, extra=(), nontrivial=None, max_report=20, timeout=3600):
+def differential_fmt(ctx, sub, n, extra=(), nontrivial=None, max_report=1000, timeout=3600):
     """Like ctx.differential, but the model's `stubs` answers (the text handed to go/format) are
     passed through the toolchain's format.Source (`avoh c12fmt`) before the comparison:
     printer.NewStubs = format.Source o (model's printStubs)."""
@@ -67,9 +67,9 @@ def run(ctx):
     if ctx.tier == "thorough":
         ctx.leanchecker(MODS)
     quick = ctx.tier == "quick"
-    differential_fmt(ctx, "c12", 400 if quick else 12000,
+    differential_fmt(ctx, "c12", 400 if quick else 40000,
                      nontrivial=lambda req, resp: " fn " in req)
-    differential_fmt(ctx, "c12build", 40 if quick else 600, extra=["-work", ctx.dir],
+    differential_fmt(ctx, "c12build", 40 if quick else 1500, extra=["-work", ctx.dir],
                      nontrivial=lambda req, resp: req.startswith("accept-build") and " fn " in req)
     ctx.coverage["rule"] = (
         "generated files: 0-15 functions with signatures from a type grammar (basic, named, pointer, slice, array, struct with "
